@@ -308,3 +308,21 @@ PROPS["C09"] = {
         Leg("pipeline-yield-race", "c09", "^TestPipeline$", engine="sched", race=True, instrument=_PIPE_FILES, checks=(150, 2000), shards=(2, 16), tests=["pipeline"]),
     ],
 }
+
+PROPS["C13"] = {
+    "title": "Transient end-of-file or read timeouts on the input lose and duplicate nothing",
+    "level": "fault_enumeration",
+    "technique": "fault injection by property-based testing (rapid): scripted io.Reader returning EOF / i/o timeout / other errors at generated byte positions; oracle: messages equal the library's framing of exactly the bytes supplied before the modelled stopping point",
+    "level_text": ("Generated fault scripts against a model of when the handler must stop (zero tolerance: first interruption; other error: at once; otherwise three "
+                   "interruptions in a row): single and double EOF / timeout results are placed at generated byte offsets between and inside frames (with or "
+                   "without data in the same Read), terminal behaviour is silence or another error; the delivered messages must equal those of the uninterrupted "
+                   "bytes, the channel must be closed and the terminal error returned. Fault placements are sampled (each case costs one or more real time-outs)."),
+    "rule": ("Cases: (C03-style stream, steps {data n, 0-2 faults of kind eof|timeout, with-data flag}, terminal silence|other-error, tolerance 40 ms or 0, wait 0-1 ms, "
+             "system log on/off, bufio size). A case in which the handler stopped at a double interruption whose two reads were >= tolerance/2 apart on the reader's own "
+             "clock (machine stall) is discarded and counted. Non-trivial = an interruption strictly inside a frame that is later completed; distinct = distinct case hash."),
+    "assumptions": ["the handler decides with time.Now(): tolerance 40 ms, stalls are detected on the reader's clock and discarded, never reported", "bufio.Reader separates data from a simultaneous error", "Go toolchain, rapid v1.3.0"],
+    "min_evals": {"quick": 250, "thorough": 10000},
+    "legs": [
+        Leg("script", "c13", "^TestScript$", engine="fault-injection", checks=(80, 700), shards=(16, 32), tests=["script"]),
+    ],
+}
